@@ -149,6 +149,30 @@ def run_case_c11(ops, edit_ops, rng, stats, m, light=False):
         E = hier_oracles.Elab(w, nl)
         stats['paths'].append(len(E.paths))
         keep = {}     # tuple -> HRef, kept alive for the identity checks
+        # -- 0. on every other netlist the very first queries are element-rooted ("occurrences of a given
+        #       element"), so that the references they create are the first ones of their paths: every reference
+        #       such a result hangs below must be THE reference of its path (same object as any other way to get it)
+        stats['c11-cases'] += 1
+        if stats['c11-cases'] % 2 == 1:
+            early = []
+            cands = [o for o in w.objs if isinstance(o, (sdn.ir.Instance, sdn.ir.Definition, sdn.ir.Library))]
+            for o in sample(rng, cands, 12):
+                try:
+                    for h in (HRef.get_all_hrefs_of_item(o) if isinstance(o, sdn.ir.Instance) else sdn.get_hinstances(o)):
+                        early.append(h)
+                except Exception:  # noqa
+                    pass
+            for h in early:
+                anc = h.parent
+                while anc is not None:
+                    ta = hw.tup(w, anc)
+                    other = hw.href_of(w, ta)
+                    if other is not anc or hash(other) != hash(anc):
+                        P.add('oracle', 'C11|flyweight|ancestor-not-same-object', href=hw.tup(w, h), ancestor=ta)
+                        break
+                    anc = anc.parent
+                stats['flyweight-checked'] += 1
+            keep_early = early   # keep them alive: the table is weak
         # -- 1. netlist root, five kinds, recursive on/off
         qs = ['enum %s %d %d' % (k, n, r) for k in KINDS for r in (0, 1)]
         ans = m.ask(qs)
@@ -213,6 +237,14 @@ def run_case_c11(ops, edit_ops, rng, stats, m, light=False):
             for tt, h in zip(raw, refs):
                 if tt in keep and keep[tt] is not h:
                     P.add('oracle', 'C11|flyweight|not-same-object', href=tt)
+                # ... and so are the references it hangs below (its parent chain)
+                anc = h.parent
+                while anc is not None:
+                    ta = hw.tup(w, anc)
+                    if ta in keep and keep[ta] is not anc:
+                        P.add('oracle', 'C11|flyweight|ancestor-not-same-object', href=tt, ancestor=ta)
+                        break
+                    anc = anc.parent
             stats['occ:%s' % type(o).__name__] += len(raw)
         # -- 4. flyweight identity (implementation only): a second query returns the same objects
         for k in KINDS:
@@ -220,6 +252,13 @@ def run_case_c11(ops, edit_ops, rng, stats, m, light=False):
                 t = hw.tup(w, h)
                 if t in keep and (keep[t] is not h or hash(keep[t]) != hash(h)):
                     P.add('oracle', 'C11|flyweight|not-same-object', href=t)
+                anc = h.parent
+                while anc is not None:
+                    ta = hw.tup(w, anc)
+                    if ta in keep and keep[ta] is not anc:
+                        P.add('oracle', 'C11|flyweight|ancestor-not-same-object', href=t, ancestor=ta)
+                        break
+                    anc = anc.parent
                 stats['flyweight-checked'] += 1
         for t in sample(rng, order, 40):
             h2 = hw.href_of(w, t)
